@@ -181,6 +181,7 @@ structure RootOK (cur : Scope) : Prop where
   height : cur.height = 0
   reqs : cur.reqs = []
   cells : ∀ x k, Scope.lookup x cur.vars = some k → cur.cells[k]? = some .var
+  allVar : ∀ c ∈ cur.cells, c = .var
 
 theorem getItem_root_some (cur : Scope) (ok : RootOK cur) (x : String) (k : Nat)
     (h : Scope.lookup x cur.vars = some k) : getItem [cur] x = .ok (some (.value (0, k, []))) := by
